@@ -116,7 +116,12 @@
         (all (gfor  e x  (is (type e) hy.models.Symbol)))
         (or (= x0 '.) (and
           (= x1 'None)
-          (not (.strip (str x0) ".")))))
+          (not (.strip (str x0) "."))))
+        ; A part that's all dots can't be written as part of a dotted
+        ; identifier.
+        (all (gfor
+          e (cut x (if (= x0 '.) 1 2) None)
+          (.strip (str e) "."))))
       (+
         (if (= x1 'None) (str x0) "")
         (.join "." (map hy-repr (cut
